@@ -980,7 +980,7 @@ class ByConstituency:
         for district, dvotes in votes.items():
             result = self._evaluate_district(
                 dvotes,
-                apportionment.get(district),
+                apportionment.get(district, 0),
                 preselected,
                 prev_gains.get(district, {}),
                 max_seats.get(district, {}),
@@ -989,7 +989,7 @@ class ByConstituency:
                 no_value_districts.append(district)
             else:
                 results[district] = result
-        result_type = type(next(iter(results.values())))
+        result_type = type(next(iter(results.values()), {}))
         for district in no_value_districts:
             results[district] = result_type()
         return results
